@@ -54,7 +54,8 @@ def cases(draw, tier="quick"):
     sched = dict(exec=[draw(code) for _ in range(nlev)], comp=[draw(code) for _ in range(nlev)], lazy=draw(st.booleans()))
     return dict(spec=spec, fields2=f2, layout2=layout2, payload2=payload2, vars1=vars1, vars2=vars2, neg=neg,
                 same_layout=draw(st.sampled_from([False, False, False, True])), sched=sched,
-                how=draw(st.sampled_from(["api", "api", "cli", "api_swapped_types"])))
+                how=draw(st.sampled_from(["api", "api", "cli", "api_swapped_types", "api_limited"])),
+                limit=draw(st.integers(0, nlev - 1)))
 
 
 def compact(case):
@@ -156,8 +157,12 @@ def check_case(case, ctx):
             argv += ["-v2", " ".join(vars2)] if vars2 is not None else []
             common.run_main(cli.main, argv)
         else:
-            pck1 = qcall(PlotfileCooker, "in1")
-            pck2 = qcall(PlotfileCooker, "in2")
+            # api_limited: both readers opened with the same level limit (views of levels 0..L of deeper files)
+            lim = min(case.get("limit", 0), p1.nlev - 1, p2.nlev - 1) if how == "api_limited" and neg is None else None
+            pck1 = qcall(PlotfileCooker, "in1", limit_level=lim)
+            pck2 = qcall(PlotfileCooker, "in2", limit_level=lim)
+            if lim is not None and lim < p1.nlev - 1:
+                ctx.label("readers-limited-below-finest")
             if how == "api_swapped_types":      # a list for the first side, a string for the second
                 qcall(combine, pck1, pck2, pltout="out", vars1=None if vars1 is None else vars1.split(),
                       vars2=None if vars2 is None else " ".join(vars2))
@@ -192,7 +197,10 @@ def check_case(case, ctx):
     out, msgs = common.read_output("out")
     if out is None:
         return v + msgs
-    m = common.Model.from_ref(a).concat(common.Model.from_ref(b), [p1.fields.index(n) for n in sel1],
-                                        [p2.fields.index(n) for n in sel2])
+    ma, mb = common.Model.from_ref(a), common.Model.from_ref(b)
+    if case.get("how") == "api_limited" and neg is None:
+        lim = min(case.get("limit", 0), p1.nlev - 1, p2.nlev - 1)
+        ma, mb = ma.select(list(range(len(ma.fields))), lim), mb.select(list(range(len(mb.fields))), lim)
+    m = ma.concat(mb, [p1.fields.index(n) for n in sel1], [p2.fields.index(n) for n in sel2])
     v += common.compare_model(m, out, time=(p1.time == p2.time))
     return v
